@@ -3,6 +3,7 @@
 package srv
 
 import (
+	"bytes"
 	"encoding/hex"
 	"fmt"
 	"net"
@@ -40,6 +41,9 @@ type HCase struct {
 	// Verify arms the C11 (DHCPv4) / C12 (DHCPv6) oracle on every datagram of the history instead of C01's:
 	// replies must match their request under stateful chains too (exhausted ranges and pools, static leases)
 	Verify bool `json:"verify,omitempty"`
+	// Check14 arms the C14 oracle instead: the chain starts with server_id, and every reply that goes out,
+	// whatever the other plugins did to it, must carry this server's identifier (siaddr and option 54 / Server-ID)
+	Check14 bool `json:"check14,omitempty"`
 }
 
 func genChain(t *rapid.T, v6 bool) []PluginSpec {
@@ -69,6 +73,79 @@ func genChain(t *rapid.T, v6 bool) []PluginSpec {
 
 // GenH draws a case
 func GenH(nilStop bool) func(t *rapid.T) HCase { return genH(nilStop, false, -1) }
+
+// GenH14 draws histories whose chain starts with server_id
+func GenH14(t *rapid.T) HCase {
+	c := genH(false, false, -1)(t)
+	c.Check14 = true
+	var rest []PluginSpec
+	for _, p := range c.Plugins {
+		if p.Name != "server_id" {
+			rest = append(rest, p)
+		}
+	}
+	first := PluginSpec{Name: "server_id", Args: chainArgs4["server_id"][0]}
+	if c.V6 {
+		first.Args = chainArgs6["server_id"][0]
+	}
+	c.Plugins = append([]PluginSpec{first}, rest...)
+	return c
+}
+
+// verifyServerID: one outgoing reply must name this server
+func verifyServerID(v6 bool, s server.Sent) *core.Violation {
+	if !v6 {
+		payload := s.Payload
+		if s.L2 {
+			f, ok := decodeFrame(s.Frame)
+			if !ok {
+				return nil
+			}
+			payload = f.payload
+		}
+		if len(payload) < 240 {
+			return nil
+		}
+		own := []byte{10, 10, 10, 1}
+		if !bytes.Equal(payload[20:24], own) {
+			return core.Violate("C14/reply/wrong-siaddr", "reply siaddr is %v, the configured server identifier is 10.10.10.1", net.IP(payload[20:24]))
+		}
+		tlvs, _ := gen.Options4(payload)
+		data, cnt := gen.Merged4(tlvs)
+		if cnt[54] != 1 || !bytes.Equal(data[54], own) {
+			return core.Violate("C14/reply/wrong-option54", "reply carries option 54 x%d = %x, the configured server identifier is 10.10.10.1", cnt[54], data[54])
+		}
+		return nil
+	}
+	b := s.Payload
+	for len(b) > 0 && (b[0] == gen.M6RelayForw || b[0] == gen.M6RelayRepl) {
+		l, ok := readRelay(b)
+		if !ok || !l.hasInner {
+			return nil
+		}
+		b = l.inner
+	}
+	if len(b) < 4 {
+		return nil
+	}
+	tlvs, ok := gen.Options6(b[4:])
+	if !ok {
+		return nil
+	}
+	n := 0
+	for _, tl := range tlvs {
+		if tl.Code == gen.O6ServerID {
+			n++
+			if !bytes.Equal(tl.Data, gen.OwnDUID6) {
+				return core.Violate("C14/reply/wrong-server-id", "reply carries server id %x, configured %x", tl.Data, gen.OwnDUID6)
+			}
+		}
+	}
+	if n != 1 {
+		return core.Violate("C14/reply/server-id-count", "reply carries %d server identifiers, want exactly 1", n)
+	}
+	return nil
+}
 
 // GenHVerify draws histories for the C11 (proto 4) / C12 (proto 6) oracle: chains always contain the
 // stateful plugins, clients are many and pools small, so exhaustion and static leases are reached
@@ -274,6 +351,16 @@ func ExecH(c HCase) (res core.Result) {
 		if pan != nil {
 			return core.Violate("C01/panic", "datagram #%d (%d bytes) made the server panic: %v\n%s", idx, len(b), pan, trim(stack, 1800))
 		}
+		if c.Check14 {
+			for _, s := range sent {
+				if v := verifyServerID(c.V6, s); v != nil {
+					v.Message = fmt.Sprintf("datagram #%d of a history under chain %v: %s", idx, c.Plugins, v.Message)
+					return v
+				}
+				answered++
+			}
+			return nil
+		}
 		if c.Verify {
 			var r core.Result
 			if c.V6 {
@@ -334,7 +421,7 @@ func ExecH(c HCase) (res core.Result) {
 				res.Skipped = "cpu-starved"
 				return
 			}
-			if c.NilStop || (c.Verify && strings.HasPrefix(v.Signature, "C01/")) {
+			if c.NilStop || ((c.Verify || c.Check14) && strings.HasPrefix(v.Signature, "C01/")) {
 				res.Classes = []string{"abandoned:C01"}
 				return
 			}
@@ -364,13 +451,13 @@ func ExecH(c HCase) (res core.Result) {
 			res.Skipped = "cpu-starved"
 			return
 		}
-		if !c.NilStop && !(c.Verify && strings.HasPrefix(v.Signature, "C01/")) {
+		if !c.NilStop && !((c.Verify || c.Check14) && strings.HasPrefix(v.Signature, "C01/")) {
 			v.Message = "canary after the history: " + v.Message
 			res.Viol = v
 		}
 		return
 	}
-	if reached.Load() == before && !c.NilStop && !c.Verify {
+	if reached.Load() == before && !c.NilStop && !c.Verify && !c.Check14 {
 		res.Viol = core.Violate("C01/canary-not-handled", "a well-formed request after the history never reached the plugin chain")
 		return
 	}
@@ -381,7 +468,7 @@ func ExecH(c HCase) (res core.Result) {
 		}
 	}
 	res.NonTrivial = before > 0
-	if c.Verify {
+	if c.Verify || c.Check14 {
 		res.NonTrivial = answered > 0
 	}
 	fam := "v4"
